@@ -207,7 +207,7 @@ func pkgOf(pkg *packages.Package, e ast.Expr) string {
 
 var syncTypes = map[string]bool{"Mutex": true, "RWMutex": true, "WaitGroup": true, "Once": true}
 var syncOther = map[string]bool{"Cond": true, "Map": true, "Pool": true, "NewCond": true, "OnceFunc": true, "OnceValue": true, "OnceValues": true}
-var execFuncs = map[string]bool{"Command": true, "LookPath": true, "CommandContext": true}
+var execFuncs = map[string]bool{"Command": true, "LookPath": true, "CommandContext": true, "Cmd": true}
 
 func conc(pkg *packages.Package, file *ast.File, relName string, r *report) bool {
 	changed := false
@@ -233,7 +233,7 @@ func conc(pkg *packages.Package, file *ast.File, relName string, r *report) bool
 					r.Sites = append(r.Sites, site(n, "exec."+n.Sel.Name))
 					n.X = ast.NewIdent("verifsim")
 					changed = true
-				} else if n.Sel.Name != "Error" && n.Sel.Name != "ExitError" && n.Sel.Name != "ErrNotFound" {
+				} else if n.Sel.Name != "Error" && n.Sel.Name != "ExitError" && n.Sel.Name != "ErrNotFound" && n.Sel.Name != "ErrDot" {
 					r.Uninstrumented = append(r.Uninstrumented, site(n, "exec."+n.Sel.Name))
 				}
 			case "sync/atomic":
